@@ -222,6 +222,23 @@ func (r *Run) Enabled() []wx.Op {
 					add(OpExchange, S, int8(ca), int8(cr), 0)
 				}
 			}
+			if f&FMove != 0 && len(c.Move) >= 3 {
+				// two components at once (the archetype graph is walked over two edges)
+				for i, c1 := range c.Move {
+					for _, c2 := range c.Move[i+1:] {
+						if c.Comps[c1].IsRel() || c.Comps[c2].IsRel() {
+							continue
+						}
+						h1, h2 := e.Has&(1<<c1) != 0, e.Has&(1<<c2) != 0
+						if !h1 && !h2 {
+							add(OpAddTwo, S, int8(c1), int8(c2), 0)
+						}
+						if h1 && h2 {
+							add(OpRemoveTwo, S, int8(c1), int8(c2), 0)
+						}
+					}
+				}
+			}
 			if ill && len(c.Move) > 0 {
 				c0 := int8(c.Move[0])
 				add(OpAddTwo, S, c0, c0, 0)
